@@ -88,11 +88,37 @@ def history(rng):
     return ([], body, [])
 
 
+def derived_history(rng):
+    """a list computed from another one (逆序, 合并) is a new list whatever the length of the original: it is stored by reference
+    in a container, changed there, and the original is read again (and the other way round)"""
+    a = Arr([Num(rng.randrange(0, 9)) for _ in range(rng.choice([0, 0, 1, 1, 1, 2, 3]))])
+    body = [Decl([(False, ["A"], a)]), Decl([(False, ["B"], Arr([]))])]
+    for _ in range(rng.randrange(1, 3)):
+        x = rng.choice([Member(Var("A"), "逆序"), Member(Var("A"), "逆序"), Method(Var("A"), [("合并", [])]),
+                        Method(Var("A"), [("合并", [Arr([])])]), Member(Member(Var("A"), "逆序"), "逆序")])
+        body.append(ExprS(Method(Var("B"), [("后增", [x])])))
+    for _ in range(rng.randrange(2, 5)):
+        tgt = rng.choice([Var("A"), Index(Var("B"), Num(1)), Index(Var("B"), Num(1))])
+        k = rng.randrange(4)
+        if k == 0:
+            body.append(ExprS(Method(tgt, [(rng.choice(["后增", "前增"]), [Num(rng.randrange(10, 99))])])))
+        elif k == 1:
+            body.append(ExprS(Method(tgt, [(rng.choice(["左移", "右移"]), [])])))
+        elif k == 2:
+            body.append(ExprS(AssignIndex(tgt, Num(1), Num(rng.randrange(10, 99)))))
+        else:
+            body.append(ExprS(AssignMember(tgt, rng.choice(["首项", "末项"]), Num(rng.randrange(10, 99)))))
+        body.append(Display(Var("A"), Var("B")))
+    body.append(Return(Arr([Var("A"), Var("B")])))
+    return ([], body, [])
+
+
 def run(chk, replay=None):
     n = 60 if chk.tier == "quick" else 600
     extra = [(history(chk.rng), None, "history") for _ in range(n)] if replay is None else []
     if replay is None:
         # every object starts from its own copy of the type's defaults (numbers included) and is shared, never copied, afterwards
+        extra += [(derived_history(chk.rng), None, "derived-list-history") for _ in range(30 if chk.tier == "quick" else 300)]
         from props import c08
         extra += [(c08.object_history(chk.rng), None, "object-history") for _ in range(25 if chk.tier == "quick" else 300)]
     semprop.run_property(chk, "C07", "c07", PROFILES, 80, 900, replay=replay, extra_programs=extra,
